@@ -34,14 +34,14 @@ HasSub(f)   == ~IsLeaf(f)
 \* the declared Go type of the field, as hseq reports it (reflect.StructField.Type)
 DeclType(f) == IF f.emb = "ptr" THEN "*" \o f.ty ELSE f.ty
 
-Max(a, b) == IF a > b THEN a ELSE b
+MaxOf(a, b) == IF a > b THEN a ELSE b
 AlignUp(o, a) == ((o + a - 1) \div a) * a
 
 RECURSIVE SSize(_), SAlign(_), OffsFrom(_,_,_)
 FSize(f)  == IF f.emb = "ptr" THEN 8 ELSE IF IsLeaf(f) THEN LeafSize(f.ty) ELSE SSize(f.sub)
 FAlign(f) == IF f.emb = "ptr" THEN 8 ELSE IF IsLeaf(f) THEN LeafAlign(f.ty) ELSE SAlign(f.sub)
 \* struct alignment = the largest field alignment (1 for the empty struct)
-SAlign(sh) == IF sh = <<>> THEN 1 ELSE Max(FAlign(Head(sh)), SAlign(Tail(sh)))
+SAlign(sh) == IF sh = <<>> THEN 1 ELSE MaxOf(FAlign(Head(sh)), SAlign(Tail(sh)))
 \* offsets of fields i.. of sh when the first free byte is o: every field at the next multiple of its alignment
 OffsFrom(sh, i, o) == IF i > Len(sh) THEN <<>>
                       ELSE LET a == AlignUp(o, FAlign(sh[i])) IN <<a>> \o OffsFrom(sh, i + 1, a + FSize(sh[i]))
